@@ -61,6 +61,8 @@ def mechanism_key(w):
   if "direction" in d:
     extra = " " + d["direction"]
   inv = w["inv"]
+  if inv.startswith("I9 "):
+    op = None            # which instruction is lost first is incidental
   if inv.startswith("I2 instruction in two blocks"):
     inv = "I2 instruction in two blocks"      # of order / of the split: same mechanism
   return f"{inv} [{op or '-'}{extra}] py{v}"
@@ -343,7 +345,7 @@ def run(tier, seed):
       "the pre-order split is the list handed to cfg_utils.order_nodes by blocks.compute_order",
       "instructions the 3.12 async-for/SEND surgery deliberately leaves outside every block are not counted "
       "as partition violations (classes listed in evidence)"]
-  for inv in ("I1", "I2", "I3", "I4", "I5", "I6", "I7", "I8", "J"):
+  for inv in ("I1", "I2", "I3", "I4", "I5", "I6", "I7", "I8", "I9", "J"):
     if not evals.get(inv):
       ck.inconclusive(f"invariant {inv} was never evaluated")
   return ck.finish()
